@@ -4,47 +4,30 @@
 package main
 
 import (
-	"context"
 	"fmt"
 	"os"
-	"sort"
-	"strconv"
 	"time"
-
-	"github.com/blevesearch/bleve/v2"
-	"github.com/blevesearch/bleve/v2/index/scorch"
-	"github.com/blevesearch/bleve/v2/index/upsidedown"
-	_ "github.com/blevesearch/bleve/v2/index/upsidedown/store/goleveldb"
-	_ "github.com/blevesearch/bleve/v2/index/upsidedown/store/moss"
-	index "github.com/blevesearch/bleve_index_api"
 
 	cf "verifharness/internal/coqfmt"
 	"verifharness/internal/strace"
+	"verifharness/internal/sw"
 	"verifharness/internal/vh"
 	"verifharness/internal/vrand"
 )
 
-type Op struct {
-	Kind string `json:"k"` // index | delete | setint | delint
-	ID   int    `json:"id"`
-	Ver  int64  `json:"v,omitempty"`
-}
-
 type Step struct {
-	Ops        []Op `json:"ops"`
-	Single     bool `json:"single,omitempty"`      // issue each op through Index/Delete/SetInternal instead of one Batch
-	ForceMerge bool `json:"force_merge,omitempty"` // scorch: ForceMerge after the step
-	Observe    bool `json:"observe"`
+	Ops        []sw.Op `json:"ops"`
+	Single     bool    `json:"single,omitempty"`      // issue each op through Index/Delete/SetInternal instead of one Batch
+	ForceMerge bool    `json:"force_merge,omitempty"` // scorch: ForceMerge after the step
+	Observe    bool    `json:"observe"`
 }
 
 type In struct {
-	Config string `json:"config"`
-	NIDs   int    `json:"nids"`
-	NKeys  int    `json:"nkeys"`
-	Steps  []Step `json:"steps"`
-	Trace  bool   `json:"trace,omitempty"`
-	Opts   int    `json:"opts,omitempty"` // persister/merge option variant for scorch-disk
-	SegVer int    `json:"segver,omitempty"`
+	Layout sw.Layout `json:"layout"`
+	NIDs   int       `json:"nids"`
+	NKeys  int       `json:"nkeys"`
+	Steps  []Step    `json:"steps"`
+	Trace  bool      `json:"trace,omitempty"`
 }
 
 var configs = []string{"scorch-disk", "scorch-mem", "udc-gtreap", "udc-boltdb", "udc-goleveldb", "udc-moss"}
@@ -56,24 +39,25 @@ func gen(f vh.Flags, r *vrand.R, emit func(In)) {
 		nkeys := r.Range(1, 3)
 		var ver int64
 		nsteps := r.Range(3, 14)
+		burst := k%3 == 0 // bursts of unobserved batches: several in-memory segments pile up for the persister
 		steps := make([]Step, nsteps)
 		for i := range steps {
 			nops := r.Range(0, 6)
 			if r.Chance(1, 8) {
 				nops = 0 // empty batch
 			}
-			st := Step{Observe: true, Single: r.Chance(1, 6), ForceMerge: r.Chance(1, 5)}
+			st := Step{Observe: !burst || i%4 == 3 || i == nsteps-1, Single: r.Chance(1, 6), ForceMerge: r.Chance(1, 5)}
 			for j := 0; j < nops; j++ {
 				ver++
 				switch x := r.Intn(20); {
 				case x < 11:
-					st.Ops = append(st.Ops, Op{Kind: "index", ID: r.Intn(nids), Ver: ver})
+					st.Ops = append(st.Ops, sw.Op{Kind: "index", ID: r.Intn(nids), Ver: ver})
 				case x < 16:
-					st.Ops = append(st.Ops, Op{Kind: "delete", ID: r.Intn(nids)})
+					st.Ops = append(st.Ops, sw.Op{Kind: "delete", ID: r.Intn(nids)})
 				case x < 18:
-					st.Ops = append(st.Ops, Op{Kind: "setint", ID: r.Intn(nkeys), Ver: ver})
+					st.Ops = append(st.Ops, sw.Op{Kind: "setint", ID: r.Intn(nkeys), Ver: ver})
 				default:
-					st.Ops = append(st.Ops, Op{Kind: "delint", ID: r.Intn(nkeys)})
+					st.Ops = append(st.Ops, sw.Op{Kind: "delint", ID: r.Intn(nkeys)})
 				}
 			}
 			steps[i] = st
@@ -83,12 +67,13 @@ func gen(f vh.Flags, r *vrand.R, emit func(In)) {
 			if f.Tier == "quick" && ci >= 2 && (k+ci)%2 == 0 {
 				continue
 			}
-			in := In{Config: c, NIDs: nids, NKeys: nkeys, Steps: steps}
+			in := In{Layout: sw.Layout{Config: c}, NIDs: nids, NKeys: nkeys, Steps: steps}
 			if c == "scorch-disk" {
 				in.Trace = true
-				in.Opts = r.Intn(4)
+				in.Layout.Opts = r.Intn(5)
+				in.Layout.Unsafe = burst // unsafe batches do not wait for the persister, so segments pile up in memory
 				if r.Chance(1, 4) {
-					in.SegVer = r.Range(11, 16)
+					in.Layout.SegVer = r.Range(11, 16)
 				}
 			}
 			emit(in)
@@ -96,159 +81,10 @@ func gen(f vh.Flags, r *vrand.R, emit func(In)) {
 	}
 }
 
-func docName(i int) string { return fmt.Sprintf("d%d", i) }
-func keyName(i int) string { return fmt.Sprintf("k%d", i) }
-
-func open(in In) (bleve.Index, string, error) {
-	m := bleve.NewIndexMapping()
-	path := ""
-	var kvc map[string]interface{}
-	typ, store := scorch.Name, scorch.Name
-	switch in.Config {
-	case "scorch-disk":
-		d, err := os.MkdirTemp("", "vh_c01_")
-		if err != nil {
-			return nil, "", err
-		}
-		path = d + "/idx"
-		kvc = map[string]interface{}{}
-		switch in.Opts {
-		case 1:
-			kvc["scorchPersisterOptions"] = map[string]interface{}{"NumPersisterWorkers": 2, "MaxSizeInMemoryMergePerWorker": 1}
-		case 2:
-			kvc["scorchMergePlanOptions"] = map[string]interface{}{"MaxSegmentsPerTier": 2, "TierGrowth": 2.0, "SegmentsPerMergeTask": 3, "FloorSegmentSize": 1}
-		case 3:
-			kvc["scorchPersisterOptions"] = map[string]interface{}{"PersisterNapTimeMSec": 1, "PersisterNapUnderNumFiles": 0}
-			kvc["scorchMergePlanOptions"] = map[string]interface{}{"MaxSegmentsPerTier": 1, "SegmentsPerMergeTask": 2, "FloorSegmentSize": 1}
-		}
-		if in.SegVer != 0 {
-			kvc["forceSegmentType"] = "zap"
-			kvc["forceSegmentVersion"] = in.SegVer
-		}
-	case "scorch-mem":
-	case "udc-gtreap":
-		typ, store = upsidedown.Name, "gtreap"
-	case "udc-moss":
-		typ, store = upsidedown.Name, "moss"
-		kvc = map[string]interface{}{}
-	case "udc-boltdb", "udc-goleveldb":
-		typ, store = upsidedown.Name, in.Config[4:]
-		d, err := os.MkdirTemp("", "vh_c01_")
-		if err != nil {
-			return nil, "", err
-		}
-		path = d + "/idx"
-	}
-	idx, err := bleve.NewUsing(path, m, typ, store, kvc)
-	return idx, path, err
-}
-
-type fieldVal struct{ name, val string }
-
-func storedFields(d index.Document) []fieldVal {
-	var rv []fieldVal
-	d.VisitFields(func(f index.Field) {
-		rv = append(rv, fieldVal{f.Name(), string(f.Value())})
-	})
-	return rv
-}
-
-type docRec struct {
-	V string `json:"v"`
-	T string `json:"t"`
-}
-
-func optVer(p *int64) cf.T { return cf.Opt(p, func(v int64) cf.T { return cf.Z(v) }) }
-
-func observe(idx bleve.Index, in In) (cf.T, error) {
-	cnt, err := idx.DocCount()
-	if err != nil {
-		return "", err
-	}
-	var docs []cf.T
-	for i := 0; i < in.NIDs; i++ {
-		d, err := idx.Document(docName(i))
-		if err != nil {
-			return "", err
-		}
-		var vp *int64
-		if d != nil {
-			v := int64(-1)
-			// read the stored version field
-			for _, fv := range storedFields(d) {
-				if fv.name == "v" {
-					if x, e := strconv.ParseInt(fv.val, 10, 64); e == nil {
-						v = x
-					}
-				}
-			}
-			vp = &v
-		}
-		docs = append(docs, cf.Pair(cf.Int(i), optVer(vp)))
-	}
-	req := bleve.NewSearchRequestOptions(bleve.NewMatchAllQuery(), in.NIDs+10, 0, false)
-	req.Fields = []string{"v"}
-	res, err := idx.Search(req)
-	if err != nil {
-		return "", err
-	}
-	type hv struct{ id, v int64 }
-	var hs []hv
-	for _, h := range res.Hits {
-		var i int64
-		fmt.Sscanf(h.ID, "d%d", &i)
-		v := int64(-1)
-		if s, ok := h.Fields["v"].(string); ok {
-			if x, e := strconv.ParseInt(s, 10, 64); e == nil {
-				v = x
-			}
-		}
-		hs = append(hs, hv{i, v})
-	}
-	if int(res.Total) != len(hs) {
-		// Total disagrees with the listed hits: encode it so that the comparison fails
-		hs = append(hs, hv{-1, int64(res.Total)})
-	}
-	sort.Slice(hs, func(a, b int) bool { return hs[a].id < hs[b].id })
-	var ids []string
-	for i := 0; i < in.NIDs; i++ {
-		ids = append(ids, docName(i))
-	}
-	ids = append(ids, "nosuchdoc")
-	req2 := bleve.NewSearchRequestOptions(bleve.NewDocIDQuery(ids), in.NIDs+10, 0, false)
-	res2, err := idx.Search(req2)
-	if err != nil {
-		return "", err
-	}
-	var dq []int
-	for _, h := range res2.Hits {
-		var i int
-		fmt.Sscanf(h.ID, "d%d", &i)
-		dq = append(dq, i)
-	}
-	sort.Ints(dq)
-	var ints []cf.T
-	for k := 0; k < in.NKeys; k++ {
-		v, err := idx.GetInternal([]byte(keyName(k)))
-		if err != nil {
-			return "", err
-		}
-		var vp *int64
-		if v != nil {
-			x := strace.ValZ(v)
-			vp = &x
-		}
-		ints = append(ints, cf.Pair(cf.Int(k), optVer(vp)))
-	}
-	return cf.App("mkObs", cf.U(cnt), cf.List(docs),
-		cf.ListOf(hs, func(h hv) cf.T { return cf.Pair(cf.Z(h.id), cf.Z(h.v)) }),
-		cf.ListOf(dq, cf.Int), cf.List(ints)), nil
-}
-
 func exec(in In) vh.Result {
-	idx, path, err := open(in)
-	if path != "" {
-		defer os.RemoveAll(path[:len(path)-4])
+	idx, path, dir, err := sw.Open(in.Layout)
+	if dir != "" {
+		defer os.RemoveAll(dir)
 	}
 	if err != nil {
 		return vh.Result{Direct: &vh.Direct{Kind: "error", Detail: "open: " + err.Error()}}
@@ -264,72 +100,44 @@ func exec(in In) vh.Result {
 			idx.Close()
 		}
 	}()
-	// (batch seq) -> doc id -> version, to give trace events their versions
-	batchVers := map[int64]map[string]int64{}
-	var seq int64
+	tg := sw.NewTagger()
 	var steps []cf.T
-	nontrivialUpd, nontrivialDel := map[int]int{}, false
+	upd, delAfterUpd := map[int]int{}, false
 	fail := func(e error) vh.Result {
 		return vh.Result{Direct: &vh.Direct{Kind: "error", Detail: e.Error()}}
 	}
+	apply := func(ops []sw.Op) error {
+		b, _, err := tg.Build(idx, ops, in.Trace)
+		if err != nil {
+			return err
+		}
+		return idx.Batch(b)
+	}
 	for _, st := range in.Steps {
-		var ops, iops []cf.T
 		for _, o := range st.Ops {
 			switch o.Kind {
 			case "index":
-				ops = append(ops, cf.Pair(cf.Int(o.ID), cf.Some(cf.Z(o.Ver))))
-				nontrivialUpd[o.ID]++
+				upd[o.ID]++
 			case "delete":
-				ops = append(ops, cf.Pair(cf.Int(o.ID), cf.None))
-				if nontrivialUpd[o.ID] > 0 {
-					nontrivialDel = true
-				}
-			case "setint":
-				iops = append(iops, cf.Pair(cf.Int(o.ID), cf.Some(cf.Z(o.Ver))))
-			case "delint":
-				iops = append(iops, cf.Pair(cf.Int(o.ID), cf.None))
-			}
-		}
-		apply := func(ops []Op) error {
-			seq++
-			b := idx.NewBatch()
-			vers := map[string]int64{}
-			for _, o := range ops {
-				switch o.Kind {
-				case "index":
-					if err := b.Index(docName(o.ID), docRec{V: strconv.FormatInt(o.Ver, 10), T: "x y"}); err != nil {
-						return err
-					}
-					vers[docName(o.ID)] = o.Ver
-				case "delete":
-					b.Delete(docName(o.ID))
-					delete(vers, docName(o.ID))
-				case "setint":
-					b.SetInternal([]byte(keyName(o.ID)), []byte(strconv.FormatInt(o.Ver, 10)))
-				case "delint":
-					b.DeleteInternal([]byte(keyName(o.ID)))
+				if upd[o.ID] > 0 {
+					delAfterUpd = true
 				}
 			}
-			if in.Trace {
-				b.SetInternal([]byte("__b"), []byte(strconv.FormatInt(seq, 10)))
-			}
-			batchVers[seq] = vers
-			return idx.Batch(b)
 		}
 		if st.Single {
 			for _, o := range st.Ops {
 				var err error
 				switch {
 				case in.Trace:
-					err = apply([]Op{o}) // keep the batch tag: one-op batches
+					err = apply([]sw.Op{o}) // keep the batch tag: one-op batches
 				case o.Kind == "index":
-					err = idx.Index(docName(o.ID), docRec{V: strconv.FormatInt(o.Ver, 10), T: "x y"})
+					err = idx.Index(sw.DocName(o.ID), sw.DocFor(o.ID, o.Ver))
 				case o.Kind == "delete":
-					err = idx.Delete(docName(o.ID))
+					err = idx.Delete(sw.DocName(o.ID))
 				case o.Kind == "setint":
-					err = idx.SetInternal([]byte(keyName(o.ID)), []byte(strconv.FormatInt(o.Ver, 10)))
+					err = idx.SetInternal([]byte(sw.KeyName(o.ID)), []byte(fmt.Sprint(o.Ver)))
 				case o.Kind == "delint":
-					err = idx.DeleteInternal([]byte(keyName(o.ID)))
+					err = idx.DeleteInternal([]byte(sw.KeyName(o.ID)))
 				}
 				if err != nil {
 					return fail(err)
@@ -338,97 +146,46 @@ func exec(in In) vh.Result {
 		} else if err := apply(st.Ops); err != nil {
 			return fail(err)
 		}
-		if st.ForceMerge && in.Config == "scorch-disk" {
-			if adv, err := idx.Advanced(); err == nil {
-				if sc, ok := adv.(*scorch.Scorch); ok {
-					ctx, cancel := context.WithTimeout(context.Background(), 20*time.Second)
-					_ = sc.ForceMerge(ctx, nil)
-					cancel()
-				}
-			}
+		if st.ForceMerge && in.Layout.Config == "scorch-disk" {
+			sw.ForceMerge(idx)
 		}
 		o := cf.None
 		if st.Observe {
-			t, err := observe(idx, in)
+			t, err := sw.Observe(idx, in.NIDs, in.NKeys)
 			if err != nil {
 				return fail(err)
 			}
 			o = cf.Some(t)
 		}
-		steps = append(steps, cf.App("mkHStep", cf.List(ops), cf.List(iops), o))
-	}
-	universe := make([]int, in.NIDs)
-	for i := range universe {
-		universe[i] = i
-	}
-	keys := make([]int, in.NKeys)
-	for i := range keys {
-		keys[i] = i
+		dops, iops := sw.OpsTerms(st.Ops)
+		steps = append(steps, cf.App("mkHStep", cf.List(dops), cf.List(iops), o))
 	}
 	multi := 0
-	for _, c := range nontrivialUpd {
+	for _, c := range upd {
 		if c >= 2 {
 			multi++
 		}
 	}
-	nontrivial := multi > 0 && nontrivialDel
+	nontrivial := multi > 0 && delAfterUpd
+	keys := make([]int, in.NKeys)
+	for i := range keys {
+		keys[i] = i
+	}
+	hist := cf.App("CHist", sw.Universe(in.NIDs), cf.ListOf(keys, cf.Int), cf.List(steps))
 	if !in.Trace {
-		return vh.Result{Term: cf.App("CHist", cf.ListOf(universe, cf.Int), cf.ListOf(keys, cf.Int), cf.List(steps)),
-			Nontrivial: nontrivial, Hist: []string{"hist:" + in.Config}}
+		return vh.Result{Term: hist, Nontrivial: nontrivial, Hist: []string{"hist:" + in.Layout.Config}}
 	}
 	// trace case: give the persister/merger a moment to work, then read the final contents
 	time.Sleep(30 * time.Millisecond)
-	var final []cf.T
-	for i := 0; i < in.NIDs; i++ {
-		d, err := idx.Document(docName(i))
-		if err != nil {
-			return fail(err)
-		}
-		var vp *int64
-		if d != nil {
-			v := int64(-1)
-			for _, fv := range storedFields(d) {
-				if fv.name == "v" {
-					if x, e := strconv.ParseInt(fv.val, 10, 64); e == nil {
-						v = x
-					}
-				}
-			}
-			vp = &v
-		}
-		final = append(final, cf.Pair(cf.Int(i), optVer(vp)))
+	final, err := sw.DocVersions(idx, in.NIDs)
+	if err != nil {
+		return fail(err)
 	}
 	idx.Close()
 	closed = true
-	evs := strace.Linearize(rec.Events())
-	namer := &strace.Namer{DocID: func(s string) int64 {
-		var i int64
-		fmt.Sscanf(s, "d%d", &i)
-		return i
-	}}
-	terms := strace.Terms(evs, namer, func(ev *scorch.VerifEvent, id string) (int64, bool) {
-		if b, ok := ev.Internal["__b"]; ok {
-			if s, err := strconv.ParseInt(string(b), 10, 64); err == nil {
-				v, ok := batchVers[s][id]
-				return v, ok
-			}
-		}
-		return -1, false
-	})
-	nm, np := 0, 0
-	for _, e := range evs {
-		switch e.Kind {
-		case "merge_finish":
-			nm++
-		case "persist_intro":
-			np++
-		}
-	}
-	h := []string{"trace", fmt.Sprintf("trace:merges=%d", nm), fmt.Sprintf("trace:persists=%d", min(np, 9))}
-	// a history case for the same run as well (the observations were taken anyway)
-	_ = steps
-	return vh.Result{Term: cf.App("CTrace", cf.ListOf(universe, cf.Int), cf.List(terms), cf.List(final)),
-		Nontrivial: nontrivial && nm > 0, Hist: h}
+	tr, mm, fm, np := sw.TraceCase(rec, tg, in.NIDs, final)
+	h := []string{"trace", "hist:scorch-disk", fmt.Sprintf("trace:mem_merges=%d", min(mm, 5)), fmt.Sprintf("trace:file_merges=%d", min(fm, 5)), fmt.Sprintf("trace:persists=%d", min(np, 9))}
+	return vh.Result{Term: cf.App("CMulti", cf.List([]cf.T{hist, tr})), Nontrivial: nontrivial && mm+fm > 0, Hist: h}
 }
 
 func main() {
@@ -439,7 +196,7 @@ func main() {
 		CheckFn:   "Corr.check",
 		ExplainFn: "Corr.explain",
 		Rule: "histories of 3-14 steps (batches of 0-6 Index/Delete/SetInternal/DeleteInternal ops, or the same ops issued singly) over 3-7 ids and 1-3 internal keys, " +
-			"each logical history run on scorch-disk (as an event trace, with 4 persister/merge option variants, forced merges, older zap versions), scorch-mem, upsidedown over gtreap/boltdb/goleveldb/moss; " +
+			"each logical history run on scorch-disk (as an event trace too, with 5 persister/merge option variants, forced merges, older zap versions, bursts of unobserved batches), scorch-mem, upsidedown over gtreap/boltdb/goleveldb/moss; " +
 			"observed after every step: DocCount, Document(id) for all ids, match-all with stored version, doc-id query, GetInternal for all keys; " +
 			"non-trivial: some id written at least twice and some previously written id deleted (traces: additionally at least one merge introduced)",
 		ShardSize: 40,
